@@ -47,7 +47,15 @@ for _c, _names in {
     for _n in _names:
         CLASS[_n] = _c
 METHODS = sorted(CLASS)
-CACHE_ATTR = {"counts": "ikey_count", "indexer": "_group_sort_indexer", "groups": "groups", "keycount": "key_count"}
+# instance attributes that hold each cache (whichever exists: cached_property stores under the property's name)
+CACHE_ATTRS = {"counts": ["ikey_count"], "indexer": ["_group_sort_indexer"], "groups": ["groups", "_groups"], "keycount": ["key_count", "_key_count"]}
+
+
+def _cache(gb, b):
+    for a in CACHE_ATTRS[b]:
+        if a in gb.__dict__:
+            return a
+    return None
 VENCS = ["f64", "i64", "bool", "M8", "m8", "f32", "series_f64", "series_i64", "series_M8tz", "arrowseries", "pl", "pa", "pachunk", "frame", "list"]
 KCONT = ["np", "series", "index", "pl", "pa", "pachunk", "arrowseries"]
 
@@ -189,6 +197,17 @@ def np_views(x, out=None, index=True):
     except Exception:
         pass
     return out
+
+
+def _cow_protected(r):
+    """pandas copy-on-write: a Series / DataFrame whose blocks are referenced elsewhere is copied before any write through
+    the pandas API, so sharing memory with a pandas input is not a writable alias (reads pandas' block reference tracker)."""
+    if not isinstance(r, (pd.Series, pd.DataFrame)):
+        return False
+    try:
+        return all(b.refs.has_reference() for b in r._mgr.blocks)
+    except Exception:
+        return False
 
 
 def _shares(a, b):
@@ -380,11 +399,12 @@ class World:
         labels = list(gb.result_index)
         return [repr(labels[c]) if c >= 0 else None for c in codes], repr(labels), repr(list(gb.result_index.names))
 
-    def dirty(self):
+    def dirty(self, fg=None):
         d = [k for k in ("keys", "values", "mask", "times") if snapshot(self.inp[k]) != self.pristine[k]]
         if snapshot(self.inp["values2"]) != self.pristine["values2"]:
             d.append("values")
-        fg, _ = self.fresh()
+        if fg is None:
+            fg, _ = self.fresh()
         try:
             lg, lf = self.logical(self.gb), self.logical(fg)
             if lg[0] != lf[0]:
@@ -393,8 +413,9 @@ class World:
                 d.append("labels")
         except Exception:
             d.append("codes")
-        for b, attr in CACHE_ATTR.items():
-            if attr in self.gb.__dict__:
+        for b in CACHE_ATTRS:
+            attr = _cache(self.gb, b)
+            if attr is not None:
                 try:
                     if not _equal(self.gb.__dict__[attr], getattr(fg, attr)):
                         d.append(b)
@@ -409,28 +430,44 @@ class World:
         b["values"] += np_views(self.inp["values2"])
         b["codes"] = np_views(gb._group_ikey) + ([p for p in gb._group_key_pointers] if gb._group_key_pointers is not None else [])
         b["labels"] = np_views(gb._result_index)
-        for nm, attr in CACHE_ATTR.items():
-            b[nm] = np_views(gb.__dict__[attr]) if attr in gb.__dict__ else []
+        for nm in CACHE_ATTRS:
+            attr = _cache(gb, nm)
+            b[nm] = np_views(gb.__dict__[attr]) if attr is not None else []
         return b
 
     def alias(self, r):
         al, ro = set(), set()
-        for nm, attr in CACHE_ATTR.items():
-            if attr in self.gb.__dict__ and r is self.gb.__dict__[attr]:
+        for nm in CACHE_ATTRS:
+            attr = _cache(self.gb, nm)
+            if attr is not None and r is self.gb.__dict__[attr]:
                 al.add(nm)          # the cached object itself was handed out
         mine = np_views(r, index=False)
+        cow = _cow_protected(r)
         for nm, arrs in self.buffers().items():
             for a in mine:
                 for x in arrs:
                     if a is x or _shares(a, x):
-                        (al if a.flags.writeable else ro).add(nm)
+                        (al if a.flags.writeable and not cow else ro).add(nm)
         return sorted(al), sorted(ro - al)
 
     def corrupt(self, b):
-        attr = CACHE_ATTR[b]
-        if attr not in self.gb.__dict__:
+        attr = _cache(self.gb, b)
+        if attr is None:
             return False
-        return mutate(self.gb.__dict__[attr]) > 0
+        obj = self.gb.__dict__[attr]
+        flipped = []
+        for a in np_views(obj) + ([self.gb.__dict__["_group_sort_indexer"]] if b == "groups" and "_group_sort_indexer" in self.gb.__dict__ else []):
+            if not a.flags.writeable:    # the harness may write where a caller cannot
+                try:
+                    a.setflags(write=True)
+                    flipped.append(a)
+                except ValueError:
+                    pass
+        try:
+            return mutate(dict(obj) if isinstance(obj, dict) else obj) > 0
+        finally:
+            for a in flipped:
+                a.setflags(write=False)
 
 
 def run_history(case):
@@ -442,6 +479,7 @@ def run_history(case):
         return tr
     for st in case["steps"]:
         kind, arg = st
+        fg = None
         try:
             if kind == "call":
                 fg, finp = w.fresh()
@@ -460,7 +498,7 @@ def run_history(case):
                 if not w.corrupt(arg):
                     continue
                 ev = {"e": "corrupt", "b": arg}
-            ev["dirty"] = w.dirty()
+            ev["dirty"] = w.dirty(fg)
         except Exception as ex:
             ev = {"e": kind, "op": CLASS.get(arg, "reduce") if kind == "call" else None, "name": str(arg), "alias": [], "roalias": [], "dirty": ["keys"], "eq": 0,
                   "r": 1, "b": "counts", "exc": f"harness: {type(ex).__name__}: {ex}"[:200]}
